@@ -34,6 +34,7 @@ CHECKS = {
         ],
     },
     "C02": {
+        "cli": True,
         "technique": "rapid random generation of diffs (from Diff and from public DiffElement fields), round-trip + differential oracle on rendered text, structure and patch effect",
         "level_text": "Diffs produced by Diff under every option set and synthetic well-formed hunk sequences (all path kinds, absent / boundary / "
                       "value context, 0..n removes and adds, strict-then-merge sequences, hostile string payloads) are rendered, read back, "
@@ -49,6 +50,7 @@ CHECKS = {
         "legs": [
             rapid("diffs", "TestC02Diffs", {"checks": 20000, "shards": 4}, {"checks": 200000, "shards": 16, "timeout": 6000}),
             rapid("synthetic", "TestC02Synthetic", {"checks": 30000, "shards": 4}, {"checks": 300000, "shards": 16, "timeout": 6000}),
+            rapid("cli", "TestC02CLI", {"checks": 120, "shards": 4, "shrinktime": "10s"}, {"checks": 2000, "shards": 16, "timeout": 6000}),
         ],
     },
     "C03": {
@@ -255,6 +257,7 @@ CHECKS = {
         "assumptions": ["a Go panic in the CLI is recognised by 'panic:', 'goroutine ' or 'runtime error' on stderr (its exit status is also 2)"],
         "legs": [
             enum("constants", "TestC13Constants", {"shards": 2}, {"shards": 2}),
+            enum("scale", "TestC13Scale", {"shards": 1}, {"shards": 1}),
             rapid("structure", "TestC13Structure", {"checks": 25000, "shards": 4}, {"checks": 300000, "shards": 16, "timeout": 6000}),
             rapid("patch", "TestC13Patch", {"checks": 15000, "shards": 2}, {"checks": 200000, "shards": 16, "timeout": 6000}),
             rapid("merge", "TestC13Merge", {"checks": 10000, "shards": 2}, {"checks": 100000, "shards": 16, "timeout": 6000}),
